@@ -479,7 +479,7 @@ def do_op(proc, op):
             finally:
                 del proc.set_par_multiple
             return line, "ok", captured.get("params")
-    except (ValueError, TypeError, KeyError) as e:
+    except Exception as e:  # noqa  (anything the accessor lets escape, incl. errors of the fake library, is an observable outcome)
         line = {"get": lambda: f"get {hx(op[1])}", "set": lambda: f"set {hx(op[1])} {enc_val(op[2])}",
                 "mget": lambda: f"mget {jc(hx(n) for n in op[1])}",
                 "mset": lambda: f"mset {jc(hx(n) + '=' + enc_val(v) for n, v in op[1])}",
